@@ -69,13 +69,30 @@ func (m *Machine) chanSend(fr *frame, ch Value, v Value) {
 		return
 	}
 	if len(m.coros) > 0 {
+		if w := m.recvWaiter(c); w != nil {
+			m.handOver(w, c, v)
+			return
+		}
+		me := m.self()
+		me.send, me.sendV, me.sendDone = c, copyVal(v), false
 		for {
 			m.block(fmt.Sprintf("send blocks forever (channel full, no receiver) at %s", m.where()))
+			if me.sendDone {
+				me.send, me.sendDone = nil, false
+				return
+			}
 			if c.Closed {
+				me.send = nil
 				m.goPanicf("send on closed channel")
 			}
 			if len(c.Buf) < c.Cap {
+				me.send = nil
 				c.Buf = append(c.Buf, copyVal(v))
+				return
+			}
+			if w := m.recvWaiter(c); w != nil {
+				me.send = nil
+				m.handOver(w, c, v)
 				return
 			}
 		}
@@ -92,10 +109,19 @@ func (m *Machine) chanRecv(fr *frame, ch Value, commaOk bool, instr *ssa.UnOp) V
 	ok := true
 retry:
 	m.chanRefresh(c)
+	if me := m.self(); me.got != nil {
+		v, me.got, me.gotV = me.gotV, nil, nil
+		if commaOk {
+			return Tuple{v, sym.Bool(true)}
+		}
+		return v
+	}
 	switch {
 	case len(c.Buf) > 0:
 		v = c.Buf[0]
 		c.Buf = c.Buf[1:]
+	case m.sendWaiter(c) != nil:
+		v = m.takeFrom(m.sendWaiter(c))
 	case c.Closed:
 		v = zero(c.ElemT)
 		ok = false
@@ -109,7 +135,9 @@ retry:
 			ok = false
 		}
 	default:
+		m.self().recv = []*Chan{c}
 		m.block(fmt.Sprintf("receive blocks forever (empty channel, nothing can make it ready) at %s", m.where()))
+		m.self().recv = nil
 		goto retry
 	}
 	if commaOk {
@@ -145,6 +173,7 @@ func (m *Machine) selectStmt(fr *frame, instr *ssa.Select) Value {
 	var ready []cand
 reeval:
 	ready = ready[:0]
+	handed := -1
 	for i, st := range instr.States {
 		c, _ := fr.get(st.Chan).(*Chan)
 		if c == nil {
@@ -152,16 +181,54 @@ reeval:
 		}
 		m.chanRefresh(c)
 		if st.Dir == types.RecvOnly {
-			if len(c.Buf) > 0 || c.Closed {
+			if me := m.self(); me.got == c && handed < 0 {
+				// a sender completed the rendezvous on this case while we were blocked
+				handed = i
+			}
+			if len(c.Buf) > 0 || c.Closed || m.sendWaiter(c) != nil {
 				ready = append(ready, cand{i, false})
 			} else if m.chanMayFire(c) {
 				ready = append(ready, cand{i, true})
 			}
 		} else {
-			if c.Closed || len(c.Buf) < c.Cap || (m.cfg.UnbufferedAsMailbox && c.Cap == 0 && len(c.Buf) == 0) {
+			if c.Closed || len(c.Buf) < c.Cap || (m.cfg.UnbufferedAsMailbox && c.Cap == 0 && len(c.Buf) == 0) || m.recvWaiter(c) != nil {
 				ready = append(ready, cand{i, false})
 			}
 		}
+	}
+	// fairness: a loop that keeps taking the receive of a closed channel while
+	// another case is ready is a schedule Go's random choice leaves with
+	// probability 2^-k; after two consecutive takes the other cases are taken.
+	if fr.selSpin[instr] >= 2 {
+		var rest []cand
+		for _, r := range ready {
+			st := instr.States[r.idx]
+			c, _ := fr.get(st.Chan).(*Chan)
+			if !r.fire && st.Dir == types.RecvOnly && c.Closed && len(c.Buf) == 0 && c.Owner == nil {
+				continue
+			}
+			rest = append(rest, r)
+		}
+		if len(rest) > 0 {
+			ready = rest
+		}
+	}
+	if handed >= 0 {
+		me := m.self()
+		v := me.gotV
+		me.got, me.gotV = nil, nil
+		m.event("select@%s takes case %d (rendezvous)", m.eng.prog.Fset.Position(instr.Pos()), handed)
+		r := Tuple{sym.BVConst(64, uint64(int64(handed))), sym.Bool(true)}
+		for i, st := range instr.States {
+			if st.Dir == types.RecvOnly {
+				if i == handed {
+					r = append(r, v)
+				} else {
+					r = append(r, zero(st.Chan.Type().Underlying().(*types.Chan).Elem()))
+				}
+			}
+		}
+		return r
 	}
 	chosen := -1
 	definitely := 0
@@ -191,7 +258,15 @@ reeval:
 		}
 	} else {
 		if len(ready) == 0 {
+			me := m.self()
+			me.recv = nil
+			for _, st := range instr.States {
+				if c, _ := fr.get(st.Chan).(*Chan); c != nil && st.Dir == types.RecvOnly && c.Cap == 0 {
+					me.recv = append(me.recv, c)
+				}
+			}
 			m.block(fmt.Sprintf("select blocks forever (no case can become ready) at %s", m.where()))
+			m.self().recv = nil
 			goto reeval
 		}
 		chosen = m.choice(len(ready), "select")
@@ -208,10 +283,21 @@ reeval:
 		if cd.fire {
 			m.chanFire(c)
 		}
+		if st.Dir == types.RecvOnly && c.Closed && len(c.Buf) == 0 && c.Owner == nil {
+			if fr.selSpin == nil {
+				fr.selSpin = map[*ssa.Select]int{}
+			}
+			fr.selSpin[instr]++
+		} else if fr.selSpin != nil {
+			fr.selSpin[instr] = 0
+		}
 		if st.Dir == types.RecvOnly {
 			if len(c.Buf) > 0 {
 				recvV = c.Buf[0]
 				c.Buf = c.Buf[1:]
+				recvOK = true
+			} else if w := m.sendWaiter(c); w != nil {
+				recvV = m.takeFrom(w)
 				recvOK = true
 			} else {
 				recvV = zero(c.ElemT)
@@ -220,7 +306,11 @@ reeval:
 			if c.Closed {
 				m.goPanicf("send on closed channel")
 			}
-			c.Buf = append(c.Buf, copyVal(fr.get(st.Send)))
+			if w := m.recvWaiter(c); w != nil && !(len(c.Buf) < c.Cap) {
+				m.handOver(w, c, fr.get(st.Send))
+			} else {
+				c.Buf = append(c.Buf, copyVal(fr.get(st.Send)))
+			}
 		}
 		m.event("select@%s takes case %d", m.eng.prog.Fset.Position(instr.Pos()), cd.idx)
 	} else {
@@ -436,6 +526,65 @@ type timerData struct {
 	periodic bool
 	fired    int
 	ch       *Chan
+	period   *sym.Term // duration given at creation / Reset (ns)
+	due      *sym.Term // instant of the next expiry (used by vrf_elapse)
+}
+
+func (m *Machine) armTimer(d *timerData, dur Value) {
+	if t, ok := dur.(*sym.Term); ok && t.Sort.K == sym.KBV {
+		d.period = t
+		d.due = sym.Add(m.nowTerm(), t)
+	}
+}
+
+// elapse lets dur nanoseconds pass: timers expire in the order of their due
+// instants, each at its own instant (the clock stands at the expiry instant
+// while the goroutines react), then the clock reaches now+dur.
+func (m *Machine) elapse(dur *sym.Term) {
+	quiesce := func() {
+		for i := 0; i < 64 && m.runCoros(); i++ {
+		}
+	}
+	quiesce()
+	target := sym.Add(m.nowTerm(), dur)
+	for iter := 0; ; iter++ {
+		if iter > 64 {
+			m.end(endUnwind, "vrf_elapse: more than 64 timer expiries")
+		}
+		var cand *timerData
+		candID := 0
+		for _, n := range m.timers {
+			d := n.Data.(*timerData)
+			if !d.active || d.due == nil {
+				continue
+			}
+			if !m.branch(sym.SLe(d.due, target)) {
+				continue
+			}
+			if cand == nil || m.branch(sym.SLt(d.due, cand.due)) {
+				cand, candID = d, n.ID
+			}
+		}
+		if cand == nil {
+			break
+		}
+		if m.branch(sym.SLt(m.clock, cand.due)) {
+			m.clock = cand.due
+		}
+		cand.fired++
+		if cand.periodic {
+			cand.due = sym.Add(cand.due, cand.period)
+		} else {
+			cand.active = false
+		}
+		if len(cand.ch.Buf) == 0 {
+			cand.ch.Buf = append(cand.ch.Buf, m.nowValue())
+		}
+		m.event("timer#%d expires", candID)
+		quiesce()
+	}
+	m.clock = target
+	quiesce()
 }
 
 // ---------------------------------------------------------------------------
@@ -452,6 +601,10 @@ func timeParts(v Value) (nz *sym.Term, ns *sym.Term) {
 }
 
 func (m *Machine) nowTerm() *sym.Term {
+	if m.clock == nil && m.cfg.ClockStart != 0 {
+		// a fixed starting instant: code that only measures durations does not depend on it
+		m.clock = sym.BVConst(64, uint64(m.cfg.ClockStart))
+	}
 	if m.cfg.Clock == "advancing" || m.clock == nil {
 		t := sym.Var(m.freshName("now"), sym.BV(64))
 		m.nondets = append(m.nondets, nondetRec{Tag: "time.Now", Kind: "int64", T: t})
@@ -486,9 +639,83 @@ type coro struct {
 	panicV  interface{}
 	cur     *frame
 	blocked string
+	w       waiter
 }
 
 type coroKill struct{}
+
+// waiter describes what a blocked line of execution (a coroutine, or the main
+// line when cur == nil) is waiting for on unbuffered channels, so that the other
+// side can complete the rendezvous.
+type waiter struct {
+	recv     []*Chan // blocked in a receive (or a select with receive cases) on these
+	got      *Chan   // a sender handed a value over on this channel
+	gotV     Value
+	send     *Chan // blocked in a send on this unbuffered channel
+	sendV    Value
+	sendDone bool
+}
+
+func (m *Machine) self() *waiter {
+	if m.curCoro != nil {
+		return &m.curCoro.w
+	}
+	return &m.mainW
+}
+
+func (m *Machine) allWaiters() []*waiter {
+	ws := []*waiter{&m.mainW}
+	for _, co := range m.coros {
+		if !co.done {
+			ws = append(ws, &co.w)
+		}
+	}
+	return ws
+}
+
+// recvWaiter returns a blocked receiver on the unbuffered channel c (not the caller).
+func (m *Machine) recvWaiter(c *Chan) *waiter {
+	if c.Cap != 0 || len(m.coros) == 0 {
+		return nil
+	}
+	me := m.self()
+	for _, w := range m.allWaiters() {
+		if w == me || w.got != nil {
+			continue
+		}
+		for _, x := range w.recv {
+			if x == c {
+				return w
+			}
+		}
+	}
+	return nil
+}
+
+// sendWaiter returns a blocked sender on the unbuffered channel c (not the caller).
+func (m *Machine) sendWaiter(c *Chan) *waiter {
+	if c.Cap != 0 || len(m.coros) == 0 {
+		return nil
+	}
+	me := m.self()
+	for _, w := range m.allWaiters() {
+		if w != me && w.send == c && !w.sendDone {
+			return w
+		}
+	}
+	return nil
+}
+
+func (m *Machine) handOver(w *waiter, c *Chan, v Value) {
+	w.got, w.gotV, w.recv = c, copyVal(v), nil
+	m.event("rendezvous on chan#%d", c.ID)
+}
+
+func (m *Machine) takeFrom(w *waiter) Value {
+	v := w.sendV
+	w.sendDone, w.sendV = true, nil
+	return v
+}
 
 func (m *Machine) spawn(name string, fn Value, args []Value, instr *ssa.Go) {
 	co := &coro{id: len(m.coros) + 1, name: name, resume: make(chan bool), yielded: make(chan struct{})}
@@ -618,19 +845,23 @@ func (m *Machine) newTimer(periodic bool) (*Value, *Native) {
 
 func init() {
 	natives["time.NewTimer"] = func(m *Machine, c *frame, fn *ssa.Function, a []Value) Value {
-		p, _ := m.newTimer(false)
+		p, n := m.newTimer(false)
+		m.armTimer(n.Data.(*timerData), a[0])
 		return p
 	}
 	natives["time.NewTicker"] = func(m *Machine, c *frame, fn *ssa.Function, a []Value) Value {
-		p, _ := m.newTimer(true)
+		p, n := m.newTimer(true)
+		m.armTimer(n.Data.(*timerData), a[0])
 		return p
 	}
 	natives["time.After"] = func(m *Machine, c *frame, fn *ssa.Function, a []Value) Value {
 		_, n := m.newTimer(false)
+		m.armTimer(n.Data.(*timerData), a[0])
 		return n.Data.(*timerData).ch
 	}
 	natives["time.Tick"] = func(m *Machine, c *frame, fn *ssa.Function, a []Value) Value {
 		_, n := m.newTimer(true)
+		m.armTimer(n.Data.(*timerData), a[0])
 		return n.Data.(*timerData).ch
 	}
 	timerOf := func(m *Machine, v Value) *timerData {
@@ -652,6 +883,7 @@ func init() {
 		d := timerOf(m, a[0])
 		was := d.active
 		d.active = true
+		m.armTimer(d, a[1])
 		m.event("timer.Reset")
 		return sym.Bool(was)
 	}
@@ -661,6 +893,7 @@ func init() {
 	}
 	natives["(*time.Ticker).Reset"] = func(m *Machine, c *frame, fn *ssa.Function, a []Value) Value {
 		timerOf(m, a[0]).active = true
+		m.armTimer(timerOf(m, a[0]), a[1])
 		return nil
 	}
 }
